@@ -157,6 +157,8 @@ def norm(e):
     if k == "id":
         return ("id", e["v"].lower())
     if k == "un":
+        if e["op"] == "+":          # the identity: a printer may drop it (weaker, meaning-preserving reading)
+            return norm(e["a"])
         return ("un", e["op"], norm(e["a"]))
     if k == "bin":
         l, r = norm(e["l"]), norm(e["r"])
